@@ -110,7 +110,7 @@ impl Scenario for EciesNet {
             stub: &["RefPeer: BIE1 written against k256 point arithmetic, sha2, a hand-written AES-128-CBC/PKCS7 over the aes block cipher and textbook HMAC-SHA256", "entropy source = script installed through the cfg(bsv_verif) hook", "channel = in-memory byte buffer with a fault plan"],
             assumptions: &["a flip inside the four magic bytes (which the statement does not list and the parser ignores) must yield an error or exactly the original message", "truncation/extension are not in this fault mix: the statement prescribes nothing for them and the parsing side is C09's"],
             required_probes: &["send_bsv_ephemeral", "send_ref", "flip_body", "flip_pubkey", "flip_mac", "flip_magic", "deliver_wrong_recipient", "deliver_wrong_sender", "replayed", "rejection_resample", "bsv_to_ref", "ref_to_bsv", "bsv_to_bsv", "wire_equals_peer", "ciphertext_object_reused"],
-            quick_runs: 20000,
+            quick_runs: 40_000,
             thorough_runs: 1500000,
             rlimit_as: 4 << 30,
             alloc_abort_is_violation: true,
@@ -130,7 +130,7 @@ impl Scenario for EciesNet {
                 8 if rng.chance(1, 6) => *rng.pick(&[4095usize, 4096, 4097, 65535, 65536]),
                 _ => rng.range(0, 300) as usize,
             };
-            let mode = *rng.pick(&["explicit", "explicit", "ephemeral", "ephemeral", "exclude", "priv_encrypt_message", "pub_encrypt_message"]);
+            let mode = *rng.pick(&["explicit", "explicit", "ephemeral", "ephemeral", "exclude", "exclude", "exclude", "priv_encrypt_message", "pub_encrypt_message"]);
             let sender = if mode == "explicit" || mode == "exclude" { *rng.pick(&["bsv", "bsv", "ref"]) } else { "bsv" };
             let (script, rejected, ekind) = entropy_script(rng);
             let s_idx = rng.below(3);
